@@ -18,15 +18,18 @@ static void fuzz_printf(const std::string &f) {
 	if(P.any_positional && !P.pos_sizes_uniform) return; // known finding, demonstrated elsewhere
 	bool mixed = (P.any_positional && P.any_sequential) || P.weird;
 	bool any_ptr = false; for(auto c : P.slots) if(c == S_STR || c == S_WSTR) any_ptr = true;
-	bool any_star = false; for(auto &d : P.dirs) if(d.star_w || d.star_p) any_star = true;
-	if(mixed && any_ptr && any_star) return; // no slot value is both a small width and a valid string pointer
+	// Mixed positional/sequential formats (undefined in POSIX, but still input): frigg pops the slots in an order that depends on
+	// which style comes first, so any slot may end up as a string pointer or as a '*' width. All slots then carry the same value
+	// (a valid wide/narrow string pointer, or a small integer when no string is printed) and the agent clamps the padding
+	// (a pointer read as a width would otherwise mean 2^31 pad characters: output volume, not parsing).
 	std::vector<uint64_t> slots;
 	uint64_t x = hash_str(f);
 	for(auto c : P.slots) {
 		x = mix(x, 1);
-		if(mixed && any_ptr) { slots.push_back((uint64_t)g_wide->data()); continue; }
+		if(mixed) { slots.push_back(any_ptr ? (uint64_t)g_wide->data() : x % 30); continue; }
 		switch(c) { case S_INT: slots.push_back(x % 30); break; case S_CHAR: slots.push_back('a' + x % 26); break; case S_STR: slots.push_back((uint64_t)g_narrow->data()); break; case S_WSTR: slots.push_back((uint64_t)g_wide->data()); break; case S_PTR: slots.push_back(x); break; }
 	}
+	if(mixed) huge = true;
 	std::string z = f; z.push_back('\0');
 	GuardedBuf gf(z.data(), z.size());
 	run_frigg(gf.data(), slots, huge, hash_str(f) & 1);
